@@ -4,7 +4,7 @@ use {
         syntax_tree::fol::sigma_0::{Formula, FunctionConstant, Predicate, Sort, Theory},
     },
     anyhow::{Context as _, Result},
-    indexmap::IndexSet,
+    indexmap::{IndexMap, IndexSet},
     itertools::Itertools,
     std::{fmt, fs::File, io::Write as _, iter::repeat_n, path::Path},
 };
@@ -55,11 +55,11 @@ impl AnnotatedFormula {
         self.formula.function_constants()
     }
 
-    pub fn rename_conflicting_symbols(self, possible_conflicts: &IndexSet<Predicate>) -> Self {
+    pub fn rename_conflicting_symbols(self, new_names: &IndexMap<String, String>) -> Self {
         AnnotatedFormula {
             name: self.name,
             role: self.role,
-            formula: self.formula.rename_conflicting_symbols(possible_conflicts),
+            formula: self.formula.rename_conflicting_symbols(new_names),
         }
     }
 }
@@ -124,13 +124,34 @@ impl Problem {
     }
 
     pub fn rename_conflicting_symbols(mut self) -> Self {
-        let propositional_predicates =
-            IndexSet::from_iter(self.predicates().into_iter().filter(|p| p.arity == 0));
+        let propositional_predicates: IndexSet<String> = self
+            .predicates()
+            .into_iter()
+            .filter(|p| p.arity == 0)
+            .map(|p| p.symbol)
+            .collect();
+        let symbols = self.symbols();
+
+        // A symbol that is also a propositional predicate gets a new name that is
+        // neither a propositional predicate nor a symbol nor another new name
+        let mut new_names = IndexMap::<String, String>::new();
+        for s in symbols.iter() {
+            if propositional_predicates.contains(s) {
+                let mut name = format!("{s}__s");
+                while propositional_predicates.contains(&name)
+                    || symbols.contains(&name)
+                    || new_names.values().any(|n| n == &name)
+                {
+                    name.push_str("__s");
+                }
+                new_names.insert(s.clone(), name);
+            }
+        }
 
         let formulas = self
             .formulas
             .into_iter()
-            .map(|f| f.rename_conflicting_symbols(&propositional_predicates))
+            .map(|f| f.rename_conflicting_symbols(&new_names))
             .collect();
         self.formulas = formulas;
         self
